@@ -5,7 +5,7 @@ import numpy as np
 from hypothesis import strategies as st
 
 from pbt.props.c18 import solve_p, biexp
-from pbt.samples import call, raised, build, sample_spec, fingerprint, fp_diff, parse_pne
+from pbt.samples import derived_from_used_parent, call, raised, build, sample_spec, fingerprint, fp_diff, parse_pne
 
 ID = 'C19'
 LEVEL = 'exploration'
@@ -73,7 +73,7 @@ def _case(draw):
             if draw(st.booleans()):
                 over[kname] = draw(strat)
     return dict(spec=spec, convert=convert, m=draw(st.floats(0.9, 1.2)), b=draw(st.floats(1, 5)),
-                form=form, sel=sel, spell=spell, nbins=nbins, scale=scale, over=over)
+                form=form, sel=sel, spell=spell, nbins=nbins, scale=scale, over=over, derived=draw(st.sampled_from([None, None, None, ['slice', 1], ['slice', 2], ['list', 1]])))
 
 
 def strategy(tier):
@@ -120,7 +120,7 @@ def check(case, obs):
     import FlowCal.transform
     spec = case['spec']
     D = len(spec['widths'])
-    d = build(spec)
+    d = build(spec) if not case.get('derived') else derived_from_used_parent(spec, case['derived'][1], case['derived'][0])
     conv = case['convert']
     if conv in ('rfi', 'mef'):
         d = FlowCal.transform.to_rfi(d)
